@@ -74,6 +74,8 @@ pub struct GatedBehavior<B> {
     side: Side,
     /// every message the real interface hands to the behaviour, per peer index, in order (C21 oracle)
     recv_log: MsgLog,
+    /// peers whose connection the initiator gave up (Disconnect command) or lost (Error / Disconnected event)
+    gone: Arc<Mutex<std::collections::HashSet<usize>>>,
 }
 
 /// (peer index, protocol, rendered message) in order of sending / receiving
@@ -93,7 +95,12 @@ impl<B: Behavior<Message = AnyMessage>> Stream for GatedBehavior<B> {
             return Poll::Pending;
         }
         match Pin::new(&mut this.inner).poll_next(cx) {
-            Poll::Ready(Some(BehaviorOutput::InterfaceCommand(c))) => Poll::Ready(Some(BehaviorOutput::InterfaceCommand(c))),
+            Poll::Ready(Some(BehaviorOutput::InterfaceCommand(c))) => {
+                if let InterfaceCommand::Disconnect(pid) = &c {
+                    this.gone.lock().unwrap().insert((pid.port as usize).saturating_sub(3000));
+                }
+                Poll::Ready(Some(BehaviorOutput::InterfaceCommand(c)))
+            }
             Poll::Ready(Some(BehaviorOutput::ExternalEvent(e))) => Poll::Ready(Some(BehaviorOutput::ExternalEvent(e))),
             Poll::Ready(None) => Poll::Ready(None),
             Poll::Pending => {
@@ -103,7 +110,12 @@ impl<B: Behavior<Message = AnyMessage>> Stream for GatedBehavior<B> {
                         *g = GateState { mode: IFACE_SECOND, prev: BEH_FIRST, from: k + 1, epoch: g.epoch };
                         cx.waker().wake_by_ref();
                     }
-                    BEH_SECOND => *g = GateState { mode: BOTH, prev: BEH_SECOND, from: k + 1, epoch: g.epoch },
+                    BEH_SECOND => {
+                        // one more pass with both sides open: a wake-up the other side received while it was
+                        // gated (a self-waking stalled read, say) has been consumed by this pass
+                        *g = GateState { mode: BOTH, prev: BEH_SECOND, from: k + 1, epoch: g.epoch };
+                        cx.waker().wake_by_ref();
+                    }
                     _ => {}
                 }
                 Poll::Pending
@@ -122,6 +134,9 @@ impl<B: Behavior<Message = AnyMessage>> Behavior for GatedBehavior<B> {
     type PeerState = B::PeerState;
     type Message = B::Message;
     fn handle_io(&mut self, event: InterfaceEvent<Self::Message>) {
+        if let InterfaceEvent::Error(pid, _) | InterfaceEvent::Disconnected(pid) = &event {
+            self.gone.lock().unwrap().insert((pid.port as usize).saturating_sub(3000));
+        }
         if let InterfaceEvent::Recv(pid, msgs) = &event {
             let idx = (pid.port as usize).saturating_sub(3000);
             let mut l = self.recv_log.lock().unwrap();
@@ -153,7 +168,10 @@ impl<I: Interface<AnyMessage>> Stream for GatedInterface<I> {
                         *g = GateState { mode: BEH_SECOND, prev: IFACE_FIRST, from: k + 1, epoch: g.epoch };
                         cx.waker().wake_by_ref();
                     }
-                    IFACE_SECOND => *g = GateState { mode: BOTH, prev: IFACE_SECOND, from: k + 1, epoch: g.epoch },
+                    IFACE_SECOND => {
+                        *g = GateState { mode: BOTH, prev: IFACE_SECOND, from: k + 1, epoch: g.epoch };
+                        cx.waker().wake_by_ref();
+                    }
                     _ => {}
                 }
                 Poll::Pending
@@ -265,6 +283,8 @@ pub struct NodeOpts {
     pub sent: MsgLog,
     /// connections opened so far, per peer index
     pub conns: Arc<Mutex<HashMap<usize, u64>>>,
+    /// peers one of whose node tasks has ended (either side closed the connection)
+    pub ended: Arc<Mutex<std::collections::HashSet<usize>>>,
 }
 
 /// writes one message as raw segments cut at seeded offsets; returns false when the connection is gone
@@ -333,7 +353,14 @@ async fn write_cut(sh: &Sh, wr: &mut pallas_network2::bearer::BearerWriteHalf, m
     true
 }
 
-async fn node(sh: Sh, idx: usize, npeers: u64, mut rd: pallas_network2::bearer::BearerReadHalf, mut wr: pallas_network2::bearer::BearerWriteHalf, verdict: Verdict, opts: NodeOpts) {
+async fn node(sh: Sh, idx: usize, npeers: u64, rd: pallas_network2::bearer::BearerReadHalf, wr: pallas_network2::bearer::BearerWriteHalf, verdict: Verdict, opts: NodeOpts) {
+    let ended = opts.ended.clone();
+    node_inner(sh.clone(), idx, npeers, rd, wr, verdict, opts).await;
+    ev(&sh, "node.exit", &[idx as u64]);
+    ended.lock().unwrap().insert(idx);
+}
+
+async fn node_inner(sh: Sh, idx: usize, npeers: u64, mut rd: pallas_network2::bearer::BearerReadHalf, mut wr: pallas_network2::bearer::BearerWriteHalf, verdict: Verdict, opts: NodeOpts) {
     let mut spec = [0u8; NPROTO];
     let mut last_req: [Option<AnyMessage>; NPROTO] = Default::default();
     let mut bf_left = 0u64;
@@ -457,8 +484,9 @@ impl Scenario for RealManager {
         run_sim(cx, |sh| async move {
             let verdict: Verdict = Arc::new(Mutex::new(None));
             // ---- hook H3: outbound connections get in-memory bearers and a simulated node behind them
-            let nopts = NodeOpts { cuts, sent: Arc::new(Mutex::new(vec![])), conns: Arc::new(Mutex::new(HashMap::new())) };
+            let nopts = NodeOpts { cuts, sent: Arc::new(Mutex::new(vec![])), conns: Arc::new(Mutex::new(HashMap::new())), ended: Arc::new(Mutex::new(Default::default())) };
             let recv_log: MsgLog = Arc::new(Mutex::new(vec![]));
+            let gone: Arc<Mutex<std::collections::HashSet<usize>>> = Arc::new(Mutex::new(Default::default()));
             let nopts_c = nopts.clone();
             let (sh_c, verdict_c, pcfg_c) = (sh.clone(), verdict.clone(), pcfg.clone());
             pallas_network2::interface::verif_hook::set_connector(Some(Box::new(move |pid: &PeerId| {
@@ -471,6 +499,7 @@ impl Scenario for RealManager {
                 let (w_n2i, r_n2i) = pipe("n2i", &sh_c, &pcfg_c);
                 let (rd, wr) = bearer2(r_i2n, w_n2i).into_split();
                 *nopts_c.conns.lock().unwrap().entry(idx).or_insert(0) += 1;
+                ev(&sh_c, "conn.open", &[idx as u64]);
                 tokio::spawn(node(sh_c.clone(), idx, npeers, rd, wr, verdict_c.clone(), nopts_c.clone()));
                 inc(&sh_c, "probe.connections_opened");
                 Some(Ok(bearer2(r_n2i, w_i2n)))
@@ -481,7 +510,7 @@ impl Scenario for RealManager {
                 handshake: pallas_network2::behavior::HandshakeBehavior::new(pallas_network2::behavior::Config { supported_version: table }),
                 ..Default::default()
             };
-            let mut manager = Manager::new(GatedInterface { inner: TcpInterface::<AnyMessage>::new(), gate: gate.clone(), side: Side { polls: 0, epoch: 0 } }, GatedBehavior { inner: beh, gate: gate.clone(), side: Side { polls: 0, epoch: 0 }, recv_log: recv_log.clone() });
+            let mut manager = Manager::new(GatedInterface { inner: TcpInterface::<AnyMessage>::new(), gate: gate.clone(), side: Side { polls: 0, epoch: 0 } }, GatedBehavior { inner: beh, gate: gate.clone(), side: Side { polls: 0, epoch: 0 }, recv_log: recv_log.clone(), gone: gone.clone() });
             let quiet = Duration::from_millis(60);
             let mut result = Ok(());
             'run: for _ in 0..steps {
@@ -536,9 +565,14 @@ impl Scenario for RealManager {
                 // drain: let the manager run until it has been quiet for a long stretch, so that every
                 // reply a node wrote completely has reached the behaviour
                 for _ in 0..4000 {
-                    arm(&gate, BOTH);
-                    if tokio::time::timeout(Duration::from_millis(400), manager.poll_next()).await.is_err() {
-                        break;
+                    // (never BOTH: with both sides ready in one pass select!'s unseeded shuffle would decide)
+                    arm(&gate, if chance(&sh, "select.iface_first", 1, 2) { IFACE_FIRST } else { BEH_FIRST });
+                    match tokio::time::timeout(Duration::from_millis(400), manager.poll_next()).await {
+                        Err(_) => {
+                            ev(&sh, "drain.quiet", &[]);
+                            break;
+                        }
+                        Ok(x) => ev(&sh, "drain.event", &[x.is_some() as u64]),
                     }
                 }
                 let sent = nopts.sent.lock().unwrap().clone();
@@ -556,8 +590,9 @@ impl Scenario for RealManager {
                             break 'cmp;
                         }
                         // a connection that never went away delivers everything that was written completely
-                        if conns.get(&idx).copied().unwrap_or(0) == 1 && !faults && g.len() != s.len() {
-                            result = Err(Violation::new("wire", format!("modeb-{}:written-but-never-delivered", SPECS[proto].name), format!("peer {idx} {}: the node wrote {} messages completely, the behaviour was handed {} although the connection stayed up and the manager went quiet", SPECS[proto].name, s.len(), g.len())));
+                        let intact = conns.get(&idx).copied().unwrap_or(0) == 1 && !gone.lock().unwrap().contains(&idx) && !nopts.ended.lock().unwrap().contains(&idx);
+                        if intact && g.len() != s.len() {
+                            result = Err(Violation::new("wire", format!("modeb-{}:written-but-never-delivered", SPECS[proto].name), format!("peer {idx} {}: the node wrote {} messages completely, the behaviour was handed {} although the connection stayed up (no Disconnect command, no Error / Disconnected event, the node still serving) and the manager went quiet", SPECS[proto].name, s.len(), g.len())));
                             break 'cmp;
                         }
                         if !g.is_empty() {
